@@ -472,12 +472,11 @@ private:
     {
         // if it throws and _memory!=0 the client must deallocate _memory
         _allocated_bytes = total_allocated_size_in_bytes(dimensions);
-        if (_allocated_bytes == 0)
+        // an image of w x 0 or 0 x h pixels needs no memory but keeps its dimensions
+        if (_allocated_bytes != 0)
         {
-            return;
+            _memory=_alloc.allocate( _allocated_bytes );
         }
-
-        _memory=_alloc.allocate( _allocated_bytes );
 
         unsigned char* tmp=(_align_in_bytes>0) ? (unsigned char*)align((std::size_t)_memory,_align_in_bytes) : _memory;
         _view=view_t(dimensions,typename view_t::locator(typename view_t::x_iterator(tmp), get_row_size_in_memunits(dimensions.x)));
@@ -493,12 +492,10 @@ private:
         std::size_t plane_size=row_size*dimensions.y;
 
         _allocated_bytes = total_allocated_size_in_bytes( dimensions );
-        if (_allocated_bytes == 0)
+        if (_allocated_bytes != 0)
         {
-            return;
+            _memory = _alloc.allocate( _allocated_bytes );
         }
-
-        _memory = _alloc.allocate( _allocated_bytes );
 
         unsigned char* tmp=(_align_in_bytes>0) ? (unsigned char*)align((std::size_t)_memory,_align_in_bytes) : _memory;
         typename view_t::x_iterator first;
